@@ -333,7 +333,7 @@ impl<'a> AddressRecordRepr<'a> {
 
     /// Return the length of a record that will be emitted from this high-level
     /// representation, not including any payload data.
-    pub fn buffer_len(&self) -> usize {
+    pub const fn buffer_len(&self) -> usize {
         field::RECORD_MCAST_ADDR.end
     }
 
@@ -396,7 +396,15 @@ impl<'a> Repr<'a> {
         match self {
             Repr::Query { data, .. } => field::QUERY_NUM_SRCS.end + data.len(),
             Repr::Report { data, .. } => field::NR_MCAST_RCRDS.end + data.len(),
-            Repr::ReportRecordReprs(_data) => field::NR_MCAST_RCRDS.end,
+            Repr::ReportRecordReprs(records) => {
+                let mut len = field::NR_MCAST_RCRDS.end;
+                let mut i = 0;
+                while i < records.len() {
+                    len += records[i].buffer_len();
+                    i += 1;
+                }
+                len
+            }
         }
     }
 
